@@ -168,11 +168,13 @@ def run(ctx: Context) -> None:
                 ok_empty_sel = (isinstance(shp, ast.Tuple) and len(shp.elts) == 2 and const_value(shp.elts[0], None) == 0
                                 and isinstance(shp.elts[1], ast.Call) and dotted(shp.elts[1].func) == 'len'
                                 and dt is not None and norm_text(dt) in ('int', 'numpy.int64', 'numpy.intp', 'numpy.int_'))
-            ctx.check('R05.1', ok_empty_sel, "an empty request gives an empty selection: zero rows and one integer column per dimension "
+            all_dsets = [c for c in calls_in(fi) if (dotted(c.func) or '').endswith('Dataset') and c.args]
+            # the empty request may instead have an exit of its own, judged with the datasets below
+            own_exit = any(is_empty_branch(_g05(fi, c)) for c in all_dsets) and not empties and not ok_empty
+            ctx.check('R05.1', ok_empty_sel or own_exit, "an empty request gives an empty selection: zero rows and one integer column per dimension "
                       "(extract_points passes on the points that hit the model, and under 'drop' / 'fill' there may be none)", fi,
                       empties[0] if empties else fi.node, construct=f"empty request: {norm_text(empties[0]) if empties else ('refused with an error' if ok_empty else 'not handled')}")
             ctx.check('R05.1', ok_mixed, "indexes of more than one grid kind are refused", fi, fi.node, construct='raise when len(set(grid_kinds)) > 1')
-            all_dsets = [c for c in calls_in(fi) if (dotted(c.func) or '').endswith('Dataset') and c.args]
             ctx.need('R05.1', 1 <= len(all_dsets) <= 2 and all(any(flow.resolve(r.value) is c for c in all_dsets) for r in fi.returns()),
                      f"every exit returns an xarray.Dataset(...) built here (one for all requests, or one for the empty request and one for the rest)", fi)
             for one_ds in all_dsets:
@@ -568,16 +570,24 @@ def run(ctx: Context) -> None:
 
     # ------------------------------------------------------------------ R05.6 table rows by position
     with ctx.section('R05.6'):
-        d2d = ctx.func(f"{PX}._dataframe_to_dataset")
+        # the conversion lives in a private helper today; written out in extract_dataframe itself it is judged there
+        ed_ = ctx.func(f"{PX}.extract_dataframe")
+        eflow = ctx.flow(ed_)
+        helper = ctx.p.functions.get(f"{PX}._dataframe_to_dataset")
+        if helper is not None:
+            d2d = ctx.func(f"{PX}._dataframe_to_dataset")
+            frame_p = d2d.params[0]
+        else:
+            d2d, frame_p = ed_, ed_.params[1]
         dflow = ctx.flow(d2d)
         tox = [c for c in method_calls(d2d, 'to_xarray')]
-        ctx.need('R05.6', len(tox) == 1, "_dataframe_to_dataset converts the table with DataFrame.to_xarray()", d2d)
+        ctx.need('R05.6', len(tox) == 1, "the table is converted with DataFrame.to_xarray(), once", d2d)
         positional = False
         how = 'the index of the caller\'s table is kept'
         for n, _ in dflow.expand(tox[0].func.value):
             if isinstance(n, ast.Call) and isinstance(n.func, ast.Attribute) and n.func.attr == 'reset_index':
                 drop = kwarg(n, 'drop')
-                if drop is not None and const_value(drop, None) is True and dflow.canon(n.func.value) == ('param', d2d.params[0]):
+                if drop is not None and const_value(drop, None) is True and dflow.canon(n.func.value) == ('param', frame_p):
                     from .common import path_conditions as _pcs
                     conds_ = [norm_text(t) for t, _ in _pcs(d2d, n)]
                     if conds_:
@@ -590,14 +600,17 @@ def run(ctx: Context) -> None:
                     and (callee(ctx, d2d, st.value) or '') in ('pandas.RangeIndex', 'numpy.arange') and len(st.value.args) == 1 \
                     and isinstance(st.value.args[0], ast.Call) and dotted(st.value.args[0].func) == 'len':
                 positional, how = True, norm_text(st)
-        ctx.check('R05.6', positional, "the table's own index is discarded in favour of row positions before conversion", d2d, tox[0], construct=f"_dataframe_to_dataset: {how}")
-        ed_ = ctx.func(f"{PX}.extract_dataframe")
-        eflow = ctx.flow(ed_)
-        conv = [c for c in calls_in(ed_) if callee(ctx, ed_, c) == f"{PX}._dataframe_to_dataset"]
+        ctx.check('R05.6', positional, "the table's own index is discarded in favour of row positions before conversion", d2d, tox[0], construct=f"{d2d.name}: {how}")
         mg_ = [c for c in method_calls(ed_, 'merge')]
-        ok = (len(conv) == 1 and len(mg_) == 1 and conv[0].args and eflow.canon(conv[0].args[0]) == ('param', ed_.params[1])
-              and mg_[0].args and eflow.resolve(mg_[0].args[0]) is conv[0]
-              and kwarg(conv[0], 'dimension_name') is not None and eflow.canon(kwarg(conv[0], 'dimension_name')) == ('param', 'point_dimension'))
+        if helper is not None:
+            conv = [c for c in calls_in(ed_) if callee(ctx, ed_, c) == f"{PX}._dataframe_to_dataset"]
+            ok = (len(conv) == 1 and len(mg_) == 1 and conv[0].args and eflow.canon(conv[0].args[0]) == ('param', ed_.params[1])
+                  and mg_[0].args and eflow.resolve(mg_[0].args[0]) is conv[0]
+                  and kwarg(conv[0], 'dimension_name') is not None and eflow.canon(kwarg(conv[0], 'dimension_name')) == ('param', 'point_dimension'))
+        else:
+            named = [st for st in walk_no_nested(ed_.node) if isinstance(st, ast.Assign) and norm_text(st.targets[0]).endswith('.index.name')
+                     and eflow.canon(st.value) == ('param', 'point_dimension')]
+            ok = len(mg_) == 1 and bool(mg_[0].args) and eflow.resolve(mg_[0].args[0]) is tox[0] and len(named) == 1
         ctx.check('R05.6', ok, "extract_dataframe merges exactly that positional table, on the point dimension", ed_, mg_[0] if mg_ else ed_.node)
 
 
